@@ -148,6 +148,8 @@ def classify_event(binary, world, variant, flavour, line):
     run, seed = int(kv.get("run", -1)), int(kv.get("seed", 0))
     what = tok[3] if len(tok) > 3 else "?"
     op = OPNAMES.get(int(kv.get("op", 0)), "?") if kv.get("call", "-1") != "-1" else "outside-call"
+    if kv.get("call") == "-2":
+        op = "new/delete (object life cycle)"
     pc = int(kv.get("pc", 0))
     fn, loc = symbolize(binary, [pc])[pc]
     extra = {"fn": fn, "loc": loc, "call": int(kv.get("call", -1)), "raw": " ".join(tok[3:])}
